@@ -156,8 +156,14 @@ def bounded_metamorphic(seed, n):
             count += 1
             klass = "%s,%s" % (a[0], b[0])
             acc.case(klass)
-            case = dict(a=B.ser(a), b=B.ser(b), R=B.ser(R), t=B.ser(t), k=str(k), label=label)
-            A, Bb, A2, B2 = O.to_lib(a, "float"), O.to_lib(b, "float"), O.to_lib(a2, "float"), O.to_lib(b2, "float")
+            case = dict(a=B.ser(a), b=B.ser(b), R=B.ser(R), t=B.ser(t), k=str(k), label=label, variant=count)
+            # the operands are built the same way before and after the transformation; the way rotates through the documented constructor
+            # forms, general-form planes, receivers moved into place and Fraction coordinates (g3dvc.bounded.to_lib_variant)
+            try:
+                A, Bb, A2, B2 = B.to_lib_variant(g, a, count), B.to_lib_variant(g, b, count // 3), B.to_lib_variant(g, a2, count), B.to_lib_variant(g, b2, count // 3)
+            except Exception as e:
+                acc.fail(klass, "building the operands (variant %d) raised %r" % (count, e), case)
+                continue
             kf = float(k)
             i1, i2 = B._call(g.intersection, A, Bb), B._call(g.intersection, A2, B2)
             if i1[0] == "exc" or i2[0] == "exc":
@@ -206,6 +212,7 @@ def replay_case(case):
     a, b, R, t, k = B.deser(case["a"]), B.deser(case["b"]), B.deser(case["R"]), B.deser(case["t"]), Fraction(case["k"])
     a2, b2 = K.transform(a, R, t, k), K.transform(b, R, t, k)
     r2 = O.intersect(a2, b2)
-    i2 = B._call(g.intersection, O.to_lib(a2, "float"), O.to_lib(b2, "float"))
+    v = case.get("variant")
+    i2 = B._call(g.intersection, O.to_lib(a2, "float"), O.to_lib(b2, "float")) if v is None else B._call(lambda: g.intersection(B.to_lib_variant(g, a2, v), B.to_lib_variant(g, b2, v // 3)))
     bad = i2[0] == "exc" or not O.matches(i2[1], r2, 1e-7)[0]
     return dict(fails=bad, observed=repr(i2[1]), expected=B.ser(r2))
